@@ -14,7 +14,7 @@ from . import common
 
 SPEC = {
     "level": "exploration",
-    "level_text": "Exploration by differential monitoring: every graph_from_tucan call is compared (accept/reject, exception type, labelled graph) with an independent reference reader; inputs are valid sentences over all 118 symbols and their single-token mutations and boundary classes (66k quick / 1.1M thorough). One known finding (literals beyond CPython's int digit limit) is reproduced and reported, not suppressed.",
+    "level_text": "Exploration by differential monitoring: every graph_from_tucan call is compared (accept/reject, exception type, labelled graph) with an independent reference reader; inputs are valid sentences over all 118 symbols and their single-token mutations and boundary classes (66k quick / 1.1M thorough). A probe with a 5 000-digit literal (formerly a known finding, since repaired) stays in every run.",
     "suite_under_monitor": True,
     "technique": "differential runtime monitor on graph_from_tucan against an independent reference reader (accept/reject, exception type, labelled graph)",
     "rule": ("strings: valid sentences over all 118 symbols (random formulas in Hill order, random tuples/attribute blocks), their single-token insertions, deletions, "
